@@ -107,6 +107,15 @@ theorem newly_cons (s : S) (v : Nat) (vs : List Nat) :
 theorem gone_cons (s : S) (v : Nat) (vs : List Nat) :
     gone s (v :: vs) = if s.contains v then v :: gone (eraseAsc v s) vs else gone s vs := rfl
 
+/-- On ascending arguments the Spec's union / difference are the model's merge kernels; the
+driver uses the right-hand sides for payloads with tens of thousands of values. -/
+theorem addAll_eq_unionAsc (s : S) (vs : List Nat) (hs : Asc s) (hv : Asc vs) : addAll s vs = unionAsc s vs :=
+  (unionAsc_eq_fold hs hv).symm
+
+theorem removeAll_eq_diffAsc (s : S) (vs : List Nat) (hs : Asc s) (hv : Asc vs) :
+    removeAll s vs = diffAsc s vs :=
+  (diffAsc_eq_filter hs hv).symm
+
 theorem addAll_cons (s : S) (v : Nat) (vs : List Nat) : addAll s (v :: vs) = addAll (insertAsc v s) vs := rfl
 
 theorem addAll_append (s : S) (a b : List Nat) : addAll s (a ++ b) = addAll (addAll s a) b := by
